@@ -1,12 +1,14 @@
 # Per-property driver configuration: which package the harness lives in, whether the
 # race detector is on per tier, shard counts and shard time-outs.
-def P(pkg=".", harness="dastard", race=None, shards=None, shard_timeout=None, gomaxprocs=None, level="exploration", max_restarts=40):
+def P(pkg=".", harness="dastard", race=None, shards=None, shard_timeout=None, gomaxprocs=None, level="exploration", max_restarts=40, fuzz=None):
     d = dict(pkg=pkg, harness=harness, level=level, max_restarts=max_restarts)
     d["race"] = race or {}
     d["shards"] = shards or {}
     d["shard_timeout"] = shard_timeout or {"quick": 600, "thorough": 3000}
     if gomaxprocs:
         d["gomaxprocs"] = gomaxprocs
+    if fuzz:
+        d["fuzz"] = fuzz
     return d
 
 PROPS = {
@@ -28,6 +30,6 @@ PROPS = {
     "C12": P(),
     "C13": P(),
     "C14": P(race={"thorough": True}),
-    "C15": P(pkg="packets", harness="packets", race={"thorough": True}),
+    "C15": P(pkg="packets", harness="packets", race={"thorough": True}, fuzz="FuzzVerifPacket"),
     "C18": P(pkg="ringbuffer", harness="ringbuffer", race={"thorough": True}),
 }
